@@ -2,6 +2,7 @@ package rules
 
 import (
 	"go/ast"
+	"go/constant"
 	"go/token"
 	"go/types"
 	"sort"
@@ -310,6 +311,11 @@ func c05miss(c *core.Ctx) {
 					c.Tabled(R, key, pos, what, r)
 					continue
 				}
+				// the lookup of a tabled function after it moved into a helper the function calls
+				if r := movedFromTabled(c, f, table); r != "" {
+					c.Tabled(R, key, pos, what, r)
+					continue
+				}
 				if !lk.CommaOk {
 					c.Bad(R, key, pos, what, "the lookup does not test for presence: a missing type yields a zero Type (nil schema) instead of a 'type not found' diagnostic")
 					continue
@@ -328,6 +334,10 @@ func c05miss(c *core.Ctx) {
 						}
 						absent := ifi.Block().Succs[1]
 						raised = raised || raisesNotFound(absent, 3)
+					}
+					// a helper that hands (value, ok) to its callers: every caller raises on !ok
+					if !raised {
+						raised = callersRaiseOnAbsent(c, f, ex, 0)
 					}
 				}
 				c.Check(raised, R, key, pos, what, "the !ok edge of the lookup does not raise ErrUserTypeNotFound: a reference to an unregistered type is silently accepted or fails with another diagnostic")
@@ -350,6 +360,20 @@ func raisesNotFound(b *ssa.BasicBlock, depth int) bool {
 				if sc := call.Call.StaticCallee(); sc != nil && sc.Name() == "F" && len(call.Call.Args) > 0 {
 					if cst, ok := call.Call.Args[0].(*ssa.Const); ok && cst.Value != nil && cst.Value.ExactString() == "1302" {
 						return true
+					}
+				}
+				// a `Must...` accessor of the module that raises the error itself on every path that does not return
+				if sc := call.Call.StaticCallee(); sc != nil && sc.Blocks != nil && strings.HasPrefix(sc.Name(), "Must") && d == depth {
+					for _, cb := range sc.Blocks {
+						for _, cin := range cb.Instrs {
+							if c2, ok := cin.(*ssa.Call); ok {
+								if g := c2.Call.StaticCallee(); g != nil && g.Name() == "F" && len(c2.Call.Args) > 0 {
+									if cst, ok := c2.Call.Args[0].(*ssa.Const); ok && cst.Value != nil && cst.Value.ExactString() == "1302" {
+										return true
+									}
+								}
+							}
+						}
 					}
 				}
 			}
@@ -582,4 +606,117 @@ func c05unnamed(c *core.Ctx) {
 		return true
 	})
 	c.Check(loop && sorted, R, "CollectUserTypes:unnamed", c.P.Pos(d.Decl.Pos()), "CollectUserTypes walks the unnamed types and sorts what it finds there", core.F("type names used inside `or` rule-sets are missing from UsedUserTypes(), or come in map order (walks unnamed types: %v, sorted: %v)", loop, sorted))
+}
+
+// callersRaiseOnAbsent: the presence flag `okv` of a lookup is a result of f; every static caller of f
+// in scope tests that result and raises ErrUserTypeNotFound on its false edge (or hands it up once more).
+func callersRaiseOnAbsent(c *core.Ctx, f *ssa.Function, okv ssa.Value, depth int) bool {
+	if depth > 1 {
+		return false
+	}
+	resIdx := -1
+	// `if !ok { return ..., false }`: the flag is handed on as a constant
+	for _, ref := range *okv.Referrers() {
+		ifi, isIf := ref.(*ssa.If)
+		if !isIf {
+			continue
+		}
+		absent := ifi.Block().Succs[1]
+		for i := 0; i < 3 && absent != nil; i++ {
+			last := absent.Instrs[len(absent.Instrs)-1]
+			if r, ok := last.(*ssa.Return); ok {
+				for k, v := range r.Results {
+					if cst, ok := v.(*ssa.Const); ok && cst.Value != nil && cst.Value.Kind() == constant.Bool && !constant.BoolVal(cst.Value) {
+						resIdx = k
+					}
+				}
+				break
+			}
+			if _, ok := last.(*ssa.Jump); ok {
+				absent = absent.Succs[0]
+				continue
+			}
+			break
+		}
+	}
+	for _, b := range f.Blocks {
+		if r, ok := b.Instrs[len(b.Instrs)-1].(*ssa.Return); ok {
+			for i, v := range r.Results {
+				if v == okv {
+					resIdx = i
+				}
+				if ph, isPhi := v.(*ssa.Phi); isPhi {
+					for _, e := range ph.Edges {
+						if e == okv {
+							resIdx = i
+						}
+					}
+				}
+			}
+		}
+	}
+	if resIdx < 0 {
+		return false
+	}
+	sites := 0
+	for _, g := range c.P.ScopeFuncs() {
+		for _, b := range g.Blocks {
+			for _, in := range b.Instrs {
+				call, ok := in.(*ssa.Call)
+				if !ok || call.Call.StaticCallee() != f {
+					continue
+				}
+				sites++
+				raised := false
+				for _, ref := range *call.Referrers() {
+					ex, isEx := ref.(*ssa.Extract)
+					if !isEx || ex.Index != resIdx {
+						continue
+					}
+					for _, r2 := range *ex.Referrers() {
+						if ifi, isIf := r2.(*ssa.If); isIf {
+							raised = raised || raisesNotFound(ifi.Block().Succs[1], 6)
+						}
+					}
+					if !raised {
+						raised = callersRaiseOnAbsent(c, g, ex, depth+1)
+					}
+				}
+				if !raised {
+					return false
+				}
+			}
+		}
+	}
+	return sites > 0
+}
+
+// movedFromTabled: f is called by a tabled function of the same package that no longer looks up a type
+// table itself - the tabled lookup was extracted into f. Returns the reason, or "".
+func movedFromTabled(c *core.Ctx, f *ssa.Function, table map[string]string) string {
+	for _, g := range c.P.ScopeFuncs() {
+		r, ok := table[core.FuncName(g)]
+		if !ok || g.Pkg != f.Pkg {
+			continue
+		}
+		calls, own := false, false
+		for _, b := range g.Blocks {
+			for _, in := range b.Instrs {
+				switch x := in.(type) {
+				case *ssa.Call:
+					if x.Call.StaticCallee() == f {
+						calls = true
+					}
+				case *ssa.Lookup:
+					if isTypeTable(x.X.Type()) {
+						own = true
+					}
+				}
+			}
+		}
+		if calls && !own {
+			return r + " [lookup moved from " + core.FuncName(g) + " into its helper]"
+		}
+	}
+	return ""
 }
